@@ -1,57 +1,76 @@
 (* C09 — property theorems (statements only; proofs live in C09_Proofs.v).
-   All of them are about the model with fx = true, i.e. the tree with the candidate repair
-   build/fixes/C09_clamp.diff; C09_Unrepaired.v refutes them for the unrepaired tree.
+   All of them are about the model with fx = fy = true, i.e. the tree with the repairs
+   build/fixes/C09_clamp.diff and build/fixes/C09_reclamp_on_schema_update.diff; C09_Unrepaired.v
+   refutes them for the trees without them.
    Quantification: every valid schema, every limiter mode / client-set state, every initial strategy
-   and EVERY event list [ops] — server quotas with arbitrary integers, of any type and strategy,
-   accept/reject/error/too-old count replies with arbitrary limits, request times (stale, reordered)
-   and meter readings, heartbeats, elapsed time, strategy changes, the Enable/Sync preemption point. *)
+   and EVERY event list [ops] — server quotas with arbitrary integers, of any type and strategy (also
+   the same answer repeated), accept/reject/error/too-old count replies with arbitrary limits, request
+   times (stale, reordered) and meter readings, heartbeats, elapsed time, strategy changes, schema
+   updates to arbitrary valid limits of the same type ([evs_ok]: the API server validates them), the
+   Enable/Sync preemption point.  "global limit" is always the one CURRENTLY configured: [scfg s]. *)
 From KG Require Import Prelude C09_Model C09_Spec C09_Proofs.
 Open Scope Z_scope.
+
+Definition evs_ok (st : static) (ops : list ev) : Prop := Forall (ev_ok (ck (cfg st))) ops.
+Definition reach (st : static) (str0 : strategy) (ops : list ev) : state := run true true st (init (cfg st) str0) ops.
 
 (* max-in-flight: the limiter a request meets has 0 <= size <= configured global max, and no more
    than global back-to-back admissions are observed; the remote limiter is bounded even while
    it is not selected *)
-Theorem C09_size_le_global : forall st str0 ops, valid_cfg (cfg st) -> ck (cfg st) = KMI ->
-  let s := run true st (init str0) ops in
-  (exists n, o_lim (observe true st s) = Some (LMI n) /\ 0 <= n <= g1 (cfg st)
-             /\ o_adm (observe true st s) <= g1 (cfg st))
-  /\ (forall l, remote_lim s = Some l -> exists n, l = LMI n /\ 0 <= n <= g1 (cfg st)).
+Theorem C09_size_le_global : forall st str0 ops, valid_cfg (cfg st) -> evs_ok st ops -> ck (cfg st) = KMI ->
+  let s := reach st str0 ops in
+  (exists n, o_lim (observe true st s) = Some (LMI n) /\ 0 <= n <= g1 (scfg s)
+             /\ o_adm (observe true st s) <= g1 (scfg s))
+  /\ (forall l, remote_lim s = Some l -> exists n, l = LMI n /\ 0 <= n <= g1 (scfg s)).
 Proof. exact size_le_global. Qed.
 Print Assumptions C09_size_le_global.
 
 (* token bucket: qps <= global qps AND burst <= global burst, same scope *)
-Theorem C09_tokenbucket_le_global : forall st str0 ops, valid_cfg (cfg st) -> ck (cfg st) = KTB ->
-  let s := run true st (init str0) ops in
-  (exists q b, o_lim (observe true st s) = Some (LTB q b) /\ 0 <= q <= g1 (cfg st) /\ 0 <= b <= g2 (cfg st))
+Theorem C09_tokenbucket_le_global : forall st str0 ops, valid_cfg (cfg st) -> evs_ok st ops -> ck (cfg st) = KTB ->
+  let s := reach st str0 ops in
+  (exists q b, o_lim (observe true st s) = Some (LTB q b) /\ 0 <= q <= g1 (scfg s) /\ 0 <= b <= g2 (scfg s))
   /\ (forall l, remote_lim s = Some l ->
-        exists q b, l = LTB q b /\ 0 <= q <= g1 (cfg st) /\ 0 <= b <= g2 (cfg st)).
+        exists q b, l = LTB q b /\ 0 <= q <= g1 (scfg s) /\ 0 <= b <= g2 (scfg s)).
 Proof. exact tb_le_global. Qed.
 Print Assumptions C09_tokenbucket_le_global.
 
+(* a schema update takes effect at once — there is no window until the next answer of the limiter
+   server: right after ANY update to valid limits, the limiter a request meets and the remote limiter
+   (selected or not, available or not) are within the new limits *)
+Theorem C09_schema_update_bounds : forall st str0 ops a b g h, valid_cfg (cfg st) -> evs_ok st ops ->
+  let c' := {| ck := ck (cfg st); l1 := a; l2 := b; g1 := g; g2 := h |} in
+  valid_cfg c' ->
+  let s' := reach st str0 (ops ++ [ESchema a b g h]) in
+  scfg s' = c' /\
+  (exists l, o_lim (observe true st s') = Some l /\ lim_bounded c' l = true) /\
+  (forall l, remote_lim s' = Some l -> lim_bounded c' l = true).
+Proof. exact schema_update_bounds. Qed.
+Print Assumptions C09_schema_update_bounds.
+
 (* mode not remote, strategy not global, client set nil or server unknown, server not ready, or no
    server quota synced yet  ==>  the LOCAL limiter with exactly the local limit (never the exempt default) *)
-Theorem C09_fallback : forall st str0 ops, valid_cfg (cfg st) ->
-  let s := run true st (init str0) ops in
+Theorem C09_fallback : forall st str0 ops, valid_cfg (cfg st) -> evs_ok st ops ->
+  let s := reach st str0 ops in
   (md st <> MRemote \/ enable_global (sstr s) = false \/ cs st <> CSOk \/ hready s = false \/ has_inner s = false) ->
-  o_sel (observe true st s) = SelLocal /\ o_lim (observe true st s) = Some (local_spec (cfg st)).
+  o_sel (observe true st s) = SelLocal /\ o_lim (observe true st s) = Some (local_spec (scfg s)).
 Proof. exact fallback. Qed.
 Print Assumptions C09_fallback.
 
 (* a server whose heartbeats fail for at least 5 s is not ready, hence the local limit is enforced *)
-Theorem C09_fallback_heartbeat : forall st str0 ops sec, valid_cfg (cfg st) -> 5 <= sec ->
-  let s := run true st (init str0) (ops ++ [EHb false; EElapse sec; EHb false]) in
+Theorem C09_fallback_heartbeat : forall st str0 ops sec, valid_cfg (cfg st) -> evs_ok st ops -> 5 <= sec ->
+  let s := reach st str0 (ops ++ [EHb false; EElapse sec; EHb false]) in
   is_ready st s = false /\ o_sel (observe true st s) = SelLocal
-  /\ o_lim (observe true st s) = Some (local_spec (cfg st)).
+  /\ o_lim (observe true st s) = Some (local_spec (scfg s)).
 Proof. exact heartbeat_fallback. Qed.
 Print Assumptions C09_fallback_heartbeat.
 
 (* global-count error reply (server failing): max(observed, local) within the global limit, never below local *)
-Theorem C09_failing_bounds : forall st str0 ops mx rate rt w i, valid_cfg (cfg st) ->
-  let c := cfg st in let s := run true st (init str0) ops in
+Theorem C09_failing_bounds : forall st str0 ops mx rate rt w i, valid_cfg (cfg st) -> evs_ok st ops ->
+  let s := reach st str0 ops in let c := scfg s in
   rem s = Some w -> rin w = Some i -> iw i <> WEmpty -> iun i = false ->
   (0 <? rt) && (rt <=? ilast i) = false ->
   rcfg w = Some {| idet := global_detail c; istr := SCount |} ->
-  exists i', rem (step true st s (ECount (RErr mx rate) rt)) = Some {| rin := Some i'; rcfg := rcfg w |} /\
+  exists i', rem (step true true st s (ECount (RErr mx rate) rt)) = Some {| rin := Some i'; rcfg := rcfg w |} /\
              iun i' = true /\
              match ck c with
              | KMI => exists n, il i' = LMI n /\ l1 c <= n <= g1 c
@@ -62,22 +81,22 @@ Print Assumptions C09_failing_bounds.
 
 (* recovery, global-allocate: with the server ready, an answered quota of the schema's type is in force,
    as answered within [0, global] *)
-Theorem C09_recovery_allocate : forall st str0 ops it l, valid_cfg (cfg st) ->
-  let c := cfg st in let s := run true st (init str0) ops in
+Theorem C09_recovery_allocate : forall st str0 ops it l, valid_cfg (cfg st) -> evs_ok st ops ->
+  let s := reach st str0 ops in let c := scfg s in
   md st = MRemote -> cs st = CSOk -> hready s = true -> enable_global (sstr s) = true ->
   istr it <> SCount -> granted c (idet it) = Some l ->
-  let s' := step true st s (EQuota it) in
+  let s' := step true true st s (EQuota it) in
   o_sel (observe true st s') = SelRemote /\ o_lim (observe true st s') = Some l /\ remote_lim s' = Some l.
 Proof. exact recovery_allocate. Qed.
 Print Assumptions C09_recovery_allocate.
 
 (* recovery, global-count: an accepted reply that is not stale ends the unavailable state and its limit
    (raised to the burst reserve, bounded by the granted maximum) is in force *)
-Theorem C09_recovery_count : forall st str0 ops limit rt w i it, valid_cfg (cfg st) ->
-  let c := cfg st in let s := run true st (init str0) ops in
+Theorem C09_recovery_count : forall st str0 ops limit rt w i it, valid_cfg (cfg st) -> evs_ok st ops ->
+  let s := reach st str0 ops in
   rem s = Some w -> rin w = Some i -> iw i <> WEmpty -> rcfg w = Some it ->
   (0 <? rt) && (rt <=? ilast i) = false ->
-  let s' := step true st s (ECount (ROk true limit) rt) in
+  let s' := step true true st s (ECount (ROk true limit) rt) in
   exists i', rem s' = Some {| rin := Some i'; rcfg := Some it |} /\ iun i' = false /\
              match idet it with
              | DMI m => il i' = LMI (zmin (zmax limit (reserve_of true m)) m)
@@ -91,8 +110,8 @@ Print Assumptions C09_recovery_count.
 
 (* every clause of the executable specification (bound, fallback, inforce, failing, recovery, nopanic)
    holds at every step of every history *)
-Theorem C09_history : forall st str0 ops, valid_cfg (cfg st) ->
-  case_ok st str0 (observe true st (init str0)) (trace true st (init str0) ops) = all_true.
+Theorem C09_history : forall st str0 ops, valid_cfg (cfg st) -> evs_ok st ops ->
+  case_ok st str0 (observe true st (init (cfg st) str0)) (trace true true st (init (cfg st) str0) ops) = all_true.
 Proof. exact case_holds. Qed.
 Print Assumptions C09_history.
 
@@ -108,7 +127,7 @@ Proof. unfold valid_cfg, two31. simpl. lia. Qed.
 (* negative, oversized, wrong-type answers; lost readiness; recovery *)
 Example C09_size_le_global_nonvacuous :
   map (fun p => (o_sel (snd p), o_lim (snd p)))
-      (trace true ex_mi (init SAlloc)
+      (trace true true ex_mi (init (cfg ex_mi) SAlloc)
          [EHb true; q_mi (-1); q_mi 50; q_tb 7 9; q_mi 7; EHb false; EElapse 5; EHb false; EHb true; q_mi 30])
   = [(SelLocal, Some (LMI 5)); (SelRemote, Some (LMI 0)); (SelRemote, Some (LMI 20)); (SelRemote, Some (LMI 20));
      (SelRemote, Some (LMI 7)); (SelRemote, Some (LMI 7)); (SelRemote, Some (LMI 7)); (SelLocal, Some (LMI 5));
@@ -117,7 +136,7 @@ Proof. vm_compute. reflexivity. Qed.
 
 Example C09_tokenbucket_le_global_nonvacuous :
   map (fun p => o_lim (snd p))
-      (trace true ex_tb (init SCount)
+      (trace true true ex_tb (init (cfg ex_tb) SCount)
          [EHb true; ECfgSync; ECount (RErr 0 5000) 1; ECount (ROk true 3) 2; EStrategy SAlloc; q_tb 7 900; q_tb (-8) (-1)])
   = [Some (LTB 5 10); Some (LTB 100 10); Some (LTB 100 10); Some (LTB 100 10); Some (LTB 100 10);
      Some (LTB 7 10); Some (LTB 0 0)].
@@ -126,7 +145,7 @@ Proof. vm_compute. reflexivity. Qed.
 (* global count: reserve, accept, stale reply dropped, reject above global, error with a meter reading above global, recovery *)
 Example C09_count_nonvacuous :
   map (fun p => (o_lim (snd p), option_map r_unavail (o_rem (snd p))))
-      (trace true ex_mi (init SCount)
+      (trace true true ex_mi (init (cfg ex_mi) SCount)
          [EHb true; ECfgSync; ECount (ROk true 12) 5; ECount (ROk true 19) 4; ECount (ROk false 100) 6;
           ECount (RErr 33 0) 7; ECount (ROk true 15) 8])
   = [(Some (LMI 5), None); (Some (LMI 1), Some false); (Some (LMI 12), Some false); (Some (LMI 12), Some false);
@@ -135,14 +154,32 @@ Proof. vm_compute. reflexivity. Qed.
 
 (* the hypotheses of C09_failing_bounds / C09_recovery_count are met by a reachable state *)
 Example C09_failing_recovery_nonvacuous :
-  let s := run true ex_mi (init SCount) [EHb true; ECfgSync] in
+  let s := reach ex_mi SCount [EHb true; ECfgSync] in
   exists w i, rem s = Some w /\ rin w = Some i /\ iw i = WMI /\ iun i = false /\ ilast i = 0 /\
               rcfg w = Some {| idet := global_detail (cfg ex_mi); istr := SCount |}.
 Proof. vm_compute. eexists. eexists. repeat split. Qed.
 
 Example C09_history_nonvacuous :
-  case_ok ex_mi SAlloc (observe true ex_mi (init SAlloc))
-    (trace true ex_mi (init SAlloc) [EHb true; EEnable; q_mi (-1); EStrategy SCount; ECfgSync; ECount (RErr 33 0) 0;
+  case_ok ex_mi SAlloc (observe true ex_mi (init (cfg ex_mi) SAlloc))
+    (trace true true ex_mi (init (cfg ex_mi) SAlloc) [EHb true; EEnable; q_mi (-1); EStrategy SCount; ECfgSync; ECount (RErr 33 0) 0;
                                       ECount (ROk false (-1)) 3; ECount (ROk true 9) 4]) = all_true
-  /\ List.length (trace true ex_mi (init SAlloc) [EHb true; EEnable; q_mi (-1)]) = 3%nat.
+  /\ List.length (trace true true ex_mi (init (cfg ex_mi) SAlloc) [EHb true; EEnable; q_mi (-1)]) = 3%nat.
 Proof. vm_compute. split; reflexivity. Qed.
+
+(* schema updates: the global limit lowered below the quota in force (8 > 4) is enforced at once, the server
+   repeating its stale answer changes nothing, a raised limit lets the repeated answer through; lowered
+   while the global-count server is unavailable (fallback 18 -> 10) *)
+Example C09_schema_update_nonvacuous :
+  map (fun p => o_lim (snd p))
+      (trace true true ex_mi (init (cfg ex_mi) SAlloc)
+         [EHb true; q_mi 8; ESchema 2 0 4 0; q_mi 8; q_mi 8; ESchema 2 0 20 0; q_mi 8])
+  = [Some (LMI 5); Some (LMI 8); Some (LMI 4); Some (LMI 4); Some (LMI 4); Some (LMI 4); Some (LMI 8)]
+  /\ map (fun p => o_lim (snd p))
+      (trace true true ex_mi (init (cfg ex_mi) SCount)
+         [EHb true; ECfgSync; ECount (RErr 18 0) 1; ESchema 2 0 10 0; ECfgSync; ESchema 2 0 30 0; ECfgSync])
+  = [Some (LMI 5); Some (LMI 1); Some (LMI 18); Some (LMI 10); Some (LMI 10); Some (LMI 10); Some (LMI 18)]
+  /\ evs_ok ex_mi [ESchema 2 0 4 0; ESchema 2 0 20 0].
+Proof.
+  split; [vm_compute; reflexivity|]. split; [vm_compute; reflexivity|].
+  repeat constructor; unfold valid_cfg, two31; simpl; lia.
+Qed.
